@@ -66,7 +66,8 @@ func ConvertProtoHeaderToMetadata(
 				vals[i] = string(data)
 			}
 		}
-		asMetadata[key] = vals
+		// the same key may appear in more than one entry (also in different case)
+		asMetadata[key] = append(asMetadata[key], vals...)
 	}
 	return asMetadata
 }
